@@ -67,7 +67,10 @@ def features(case):
     if any(l["kind"] == "multiterm" for l in ff["links"]) and any(b["syntax"] == "itp" for b in ff["blocks"]):
         out.append("link-multiterm-file-order")
     nodes = sorted(graph["nodes"], key=lambda n: n[1])
-    if nodes and nodes[0][3] and nodes[0][1] != 1:
+    mr = next((b for b in ff["blocks"] if b["name"] == "MR"), None)
+    mr_base = mr["atoms"][0]["resid"] if mr is not None else 1
+    # (a copy that comes first keeps the block's own residue numbers: fine when they ARE the residue ids asked for)
+    if nodes and nodes[0][3] and nodes[0][1] != mr_base:
         out.append("multires-first-resid-not-1")
     if nodes and nodes[0][1] == 0:
         out.append("resid-start-0")
@@ -153,6 +156,31 @@ def make_case(rng, findings=(), **kw):
     mods = gen.gen_mods(rng, ff, graph, findings=findings)
     files = gen.files_of(ff, rng)
     return dict(ff=ff, graph=graph, mods=mods, files=files)
+
+
+def rebased_multires_cases(rng, count):
+    """a multi-residue block whose OWN residue numbers do not start at 1 (a fragment cut out of a larger molecule,
+    numbered k, k+1, …), used once, as the FIRST residues of a graph that asks for exactly these ids: every atom
+    must be numbered by its residue id like anywhere else"""
+    cases, tries = [], 0
+    while len(cases) < count and tries < 200 * count:
+        tries += 1
+        ff = gen.gen_ff(rng, multires=True)
+        mr = next((b for b in ff["blocks"] if b["name"] == "MR"), None)
+        if mr is None:
+            continue
+        start = rng.choice([3, 7, 28])
+        graph = gen.gen_graph(rng, ff, findings=("multires-first-resid-not-1",), start=start)
+        nodes = sorted(graph["nodes"], key=lambda n: n[1])
+        nres = len({a["resid"] for a in mr["atoms"]})
+        if not nodes or not nodes[0][3] or sum(1 for n in nodes if n[3]) != nres:
+            continue                                    # not first, or more than one copy
+        for atom in mr["atoms"]:
+            atom["resid"] += start - 1
+        case = dict(ff=ff, graph=graph, mods=gen.gen_mods(rng, ff, graph), files=gen.files_of(ff, rng))
+        if not features(case):
+            cases.append(case)
+    return cases
 
 
 def small_cases(rng, thorough):
@@ -417,6 +445,7 @@ def run(ctx):
         cases.append(make_case(rng, **kw))
     for chunk in range(0, len(cases), 250):
         run_batch(ctx, cases[chunk:chunk + 250], "random")
+    run_batch(ctx, rebased_multires_cases(rng, ctx.budget(30, 300)), "rebased-multires")
     # finding streams: one stream per enabled shape
     for shape in findings:
         sub = random.Random("finding %s %d" % (shape, ctx.seed))
